@@ -15,6 +15,7 @@ def gen(rng, i):
     around = [0, at - 1, at, at, at + 1, at + 50]
     return {"entry": entry, "how": rng.choice(["value", "value", "exc", "xcancel", "never"]), "at": at,
             "cancellable": rng.random() < 0.6, "cb_raise_first": rng.random() < 0.3,
+            "recancel": rng.choice([None, None, None, "input", "own"]),
             "cancels": sorted(rng.sample(around, rng.choice([0, 1, 1, 2]))),
             "cbs": sorted(rng.sample(around, rng.choice([1, 2, 2]))),
             "waits": [[rng.choice([0, at - 1, at, at + 1]), rng.choice(["result", "exception", "wait", "as_completed"])]
@@ -31,7 +32,8 @@ def run(ck):
         p = gen(rng, i)
         strat = ["random", rng.randrange(10 ** 9), 0.5] if i % 3 else ["pct", rng.randrange(10 ** 9), 3, 150]
         tasks.append({"scen": "futproto", "params": p, "strat": strat, "gran": "line" if i % 4 == 0 else "sync",
-                      "facts": {"entry": p["entry"], "how": p["how"], "cancelled_by_user": bool(p["cancels"])}})
+                      "facts": {"entry": p["entry"], "how": p["how"], "cancelled_by_user": bool(p["cancels"]),
+                                "recancel": p["recancel"]}})
     ck.run_and_validate(tasks, TRACE)
     # directed schedules with two preemptions (line granularity): thread A runs n steps, thread B m steps, then A to
     # its end, then B - for completer / callback adder / canceller pairs; this places B's critical step at every point
@@ -50,5 +52,14 @@ def run(ck):
                          "horizon": 800}
                     tasks.append({"scen": "futproto", "params": p, "strat": ["phases", [[a, n], [b, m], [a, 10000]]],
                                   "gran": "line", "facts": {"entry": e, "how": "value", "directed": True}})
+    # three parties on a polled future: its delegate has completed, the poll thread holds its descriptor and is about
+    # to yield for it, a client cancels it and is somewhere in the delivery of the done-callbacks
+    pp = {"entry": "poll", "how": "value", "at": 100, "cancels": [100], "cbs": [0, 0], "waits": [], "horizon": 1000}
+    for k in range(1, 62, 15 if quick else 1):
+        for n in range(1, 45, 1 if quick else 1):
+            tasks.append({"scen": "futproto", "params": pp,
+                          "strat": ["phases", [["env1", 10000], ["PollExecutor-default", k], ["can0", n],
+                                               ["PollExecutor-default", 10000], ["can0", 10000]]],
+                          "gran": "line", "facts": {"entry": "poll", "how": "value", "directed": True}})
     ck.run_and_validate(tasks, TRACE, nontrivial=lambda t, r: True)
     ck.assumptions += ["one future per execution, 20 entry points, clients: <=2 cancellers, <=2 callback adders, <=2 waiters"]
